@@ -18,6 +18,7 @@ import (
 	"os"
 	"path/filepath"
 	"reflect"
+	"strconv"
 	"strings"
 
 	"github.com/zerx-lab/wordZero/pkg/document"
@@ -41,17 +42,60 @@ type dtBlock struct {
 	Rows [][][]dtBlock `json:"rows"` // rows -> cells -> blocks
 }
 
+// dtMedia is a picture the base document already carries: the name of its part and the token of its bytes.
+type dtMedia struct {
+	Num  int    `json:"num"`
+	Name string `json:"name"`
+	Tok  string `json:"tok"`
+}
+
 type dtDesc struct {
 	Body  []dtBlock `json:"body"`
 	Hdr   []dtRun   `json:"hdr"`
 	Ftr   []dtRun   `json:"ftr"`
 	Sect  string    `json:"sect"`
 	Extra bool      `json:"extra"`
+	Media []dtMedia `json:"media"`
 }
 
+// dtPair: V is the text the value stands for, Ty says as what it is handed to the library.
 type dtPair struct {
-	N []string `json:"n"`
-	V []string `json:"v"`
+	N  []string `json:"n"`
+	V  []string `json:"v"`
+	Ty string   `json:"ty"`
+}
+
+// dtValue concretises a value: the Go value of type Ty whose text is V.
+func dtValue(p dtPair) interface{} {
+	s := dtStr(p.V)
+	switch p.Ty {
+	case "", "str":
+		return s
+	case "nil":
+		if s != "" {
+			panic("nil value with text " + s)
+		}
+		return nil
+	case "int":
+		n, err := strconv.Atoi(s)
+		if err != nil {
+			panic(err)
+		}
+		return n
+	case "bool":
+		b, err := strconv.ParseBool(s)
+		if err != nil {
+			panic(err)
+		}
+		return b
+	case "float":
+		f, err := strconv.ParseFloat(s, 64)
+		if err != nil {
+			panic(err)
+		}
+		return f
+	}
+	panic("unknown value type " + p.Ty)
 }
 
 type dtList struct {
@@ -99,6 +143,8 @@ func dtImageBytes(tok string) []byte {
 		return tinyJPEGSize(2, 4, 4)
 	case "img3":
 		return tinyPNGSize(3, 2, 5)
+	case "img8":
+		return tinyPNGSize(8, 3, 3) // second picture already present in the base document
 	}
 	return tinyPNGSize(9, 2, 2) // img9: picture already present in the base document
 }
@@ -156,21 +202,28 @@ func dtFmtXML(k int) string {
 type dtBuilder struct {
 	doc  *document.Document
 	pj   *dtProj
-	img9 *document.DrawingElement
+	pics map[string]*document.DrawingElement // token -> drawing of a picture already present in the base
+	made []string                            // tokens in the order the pictures were added (the library numbers the parts in this order)
 	nbm  int
 }
 
-func (b *dtBuilder) drawing() *document.DrawingElement {
-	if b.img9 == nil {
+// drawing returns the drawing of the base document's picture with this token, adding the picture on first use.
+func (b *dtBuilder) drawing(tok string) *document.DrawingElement {
+	if b.pics == nil {
+		b.pics = map[string]*document.DrawingElement{}
+	}
+	if b.pics[tok] == nil {
 		n := len(b.doc.Body.Elements)
-		if _, err := b.doc.AddImageFromData(dtImageBytes("img9"), "base.png", document.ImageFormatPNG, 2, 2, nil); err != nil {
+		if _, err := b.doc.AddImageFromData(dtImageBytes(tok), "base.png", document.ImageFormatPNG, 2, 2, nil); err != nil {
 			panic(err)
 		}
 		p := b.doc.Body.Elements[n].(*document.Paragraph)
 		b.doc.Body.Elements = b.doc.Body.Elements[:n]
-		b.img9 = p.Runs[0].Drawing
+		b.pics[tok] = p.Runs[0].Drawing
+		b.made = append(b.made, tok)
+		b.pj.imgTok[dtSha(dtImageBytes(tok))] = tok
 	}
-	return b.img9
+	return b.pics[tok]
 }
 
 func (b *dtBuilder) run(r dtRun) document.Run {
@@ -180,7 +233,9 @@ func (b *dtBuilder) run(r dtRun) document.Run {
 	case "br":
 		out.Break = &document.Break{Type: "page"}
 	case "drawing":
-		out.Drawing = b.drawing()
+		out.Drawing = b.drawing("img9")
+	case "drawing2":
+		out.Drawing = b.drawing("img8")
 	case "fldB":
 		out.FieldChar = &document.FieldChar{FieldCharType: "begin"}
 	case "fldI":
@@ -354,6 +409,12 @@ func dtSimpleRuns(rs []dtRun) bool { return len(rs) == 1 && rs[0].F == 0 && rs[0
 
 // dtRewrite re-packs a saved package replacing / adding parts.
 func dtRewrite(pkg []byte, repl map[string][]byte, ctOverrides map[string]string) []byte {
+	return dtRewriteRen(pkg, repl, ctOverrides, nil)
+}
+
+// dtRewriteRen additionally renames parts (all at once) and the relationship targets of the main
+// document that point at them: ren maps a part name to its new name.
+func dtRewriteRen(pkg []byte, repl map[string][]byte, ctOverrides map[string]string, ren map[string]string) []byte {
 	zr, err := zip.NewReader(bytes.NewReader(pkg), int64(len(pkg)))
 	if err != nil {
 		panic(err)
@@ -378,7 +439,18 @@ func dtRewrite(pkg []byte, repl map[string][]byte, ctOverrides map[string]string
 			data = []byte(s)
 		}
 		seen[f.Name] = true
-		w, _ := zw.Create(f.Name)
+		name := f.Name
+		if nn, ok := ren[name]; ok {
+			name = nn
+		}
+		if f.Name == "word/_rels/document.xml.rels" && len(ren) > 0 {
+			var pairs []string
+			for o, n := range ren {
+				pairs = append(pairs, `Target="`+strings.TrimPrefix(o, "word/")+`"`, `Target="`+strings.TrimPrefix(n, "word/")+`"`)
+			}
+			data = []byte(strings.NewReplacer(pairs...).Replace(string(data)))
+		}
+		w, _ := zw.Create(name)
 		w.Write(data)
 	}
 	for name, data := range repl {
@@ -467,12 +539,34 @@ func dtBuild(d dtDesc, pj *dtProj) (doc *document.Document, pkg []byte, needOpen
 		ct["/word/vbaData.bin"] = "application/octet-stream"
 	}
 	pj.imgTok[dtSha(dtImageBytes("img9"))] = "img9"
-	if len(repl) > 0 {
+	// the pictures the base already carries get the part names of the description
+	ren := map[string]string{}
+	if len(d.Media) > 0 {
+		if len(b.made) != len(d.Media) {
+			panic(fmt.Sprintf("description names %d pictures, the body shows %d", len(d.Media), len(b.made)))
+		}
+		for i, tok := range b.made {
+			var m *dtMedia
+			for k := range d.Media {
+				if d.Media[k].Tok == tok {
+					m = &d.Media[k]
+				}
+			}
+			if m == nil {
+				panic("no media entry for " + tok)
+			}
+			from := fmt.Sprintf("word/media/image%d.png", i)
+			if to := "word/media/" + m.Name; to != from {
+				ren[from] = to
+			}
+		}
+	}
+	if len(repl) > 0 || len(ren) > 0 {
 		raw, err := doc.ToBytes()
 		if err != nil {
 			panic(err)
 		}
-		return doc, dtRewrite(raw, repl, ct), true
+		return doc, dtRewriteRen(raw, repl, ct, ren), true
 	}
 	return doc, nil, false
 }
@@ -480,14 +574,14 @@ func dtBuild(d dtDesc, pj *dtProj) (doc *document.Document, pkg []byte, needOpen
 func dtTemplateData(d dtData, pj *dtProj) *document.TemplateData {
 	td := document.NewTemplateData()
 	for _, v := range d.Vars {
-		td.SetVariable(dtStr(v.N), dtStr(v.V))
+		td.SetVariable(dtStr(v.N), dtValue(v))
 	}
 	for _, l := range d.Lists {
 		items := []interface{}{}
 		for _, it := range l.Items {
 			m := map[string]interface{}{}
 			for _, kv := range it {
-				m[dtStr(kv.N)] = dtStr(kv.V)
+				m[dtStr(kv.N)] = dtValue(kv)
 			}
 			items = append(items, m)
 		}
